@@ -48,6 +48,10 @@ Qed.
 Lemma offs_run_one : forall b offs i v, offs_run b offs i [v] = fst (write_next b (offs, []) i v).
 Proof. intros. rewrite offs_run_cons. reflexivity. Qed.
 
+Lemma read_next_as_2 : forall b st p,
+  read_next b st p = read_next2 b (fst st) p (nth (Z.to_nat p) (snd st) 0) (nth (Z.to_nat (p + 1)) (snd st) 0).
+Proof. intros b [offs inls] p. reflexivity. Qed.
+
 Definition lowrec (b : Z) (r : Z * Z * Z) : Z * Z * Z := (fst r, low b (snd r)).
 
 Lemma midA_inserts_split : forall m recs mem offs i,
@@ -142,7 +146,7 @@ Section MiddleA.
     (forall i j, lo <= i -> i <= j -> j < hi -> word_of recs i <= word_of recs j) ->
     (forall i, lo <= i < hi -> word_of recs i <= m_max_vocab m) -> 0 <= word <= m_max_vocab m -> hi - lo <= 2 ^ 32 ->
     (Z.of_nat fuel >= Z.max 1 (hi - lo + 1)) ->
-    exists res, midA_find m fuel (length nexts) stA word lo hi = Some res /\
+    exists res, midA_find m fuel stA word lo hi = Some res /\
       match res with
       | Some (p, pay, cb, ce) => lo <= p < hi /\ word_of recs p = word /\ pay = pay_of recs p /\ cb = nextA p /\ ce = nextA (p + 1)
       | None => forall i, lo <= i < hi -> word_of recs i <> word
@@ -158,14 +162,14 @@ Section MiddleA.
     destruct Href as [res [Hfind Hres]]; try assumption.
     - intros i j Hi Hij Hj. rewrite !Ew. apply Hsw; assumption.
     - intros i Hi. rewrite Ew. apply Hle. exact Hi.
-    - unfold midA_find. pose proof inls_are_low as Hin. rewrite stA_split in Hin |- *. cbn [fst] in Hin.
-      rewrite Hfind. destruct res as [[[[p pay] cb0] ce0]|].
-      + destruct Hres as [Hp [Hwp [Hpay _]]].
-        rewrite Hin.
-        assert (Est : (fst (bhiksha_write b nexts), map (low b) nexts) = bhiksha_write b nexts).
-        { rewrite (write_spec b ltac:(unfold b; lia) nexts Hsorted Hnonneg). reflexivity. }
-        fold b. rewrite Est.
-        rewrite (read_after_write b ltac:(unfold b; lia) nexts p Hsorted Hnonneg ltac:(lia)) by (rewrite nexts_len; unfold n in *; lia).
+    - unfold midA_find. rewrite stA_split. rewrite Hfind. destruct res as [[[[p pay] cb0] ce0]|].
+      + destruct Hres as [Hp [Hwp [Hpay [Hcb Hce]]]].
+        rewrite Hcb, Hce, !lrecs_next by lia.
+        pose proof (f_equal snd (write_spec b ltac:(unfold b; lia) nexts Hsorted Hnonneg)) as Hws. cbn [snd] in Hws.
+        pose proof (read_after_write b ltac:(unfold b; lia) nexts p Hsorted Hnonneg ltac:(lia) ltac:(rewrite nexts_len; unfold n in *; lia)) as Hraw.
+        rewrite read_next_as_2, Hws in Hraw. unfold nextA in *.
+        change 0 with (low b 0) in Hraw at 1 2. rewrite !map_nth in Hraw.
+        cbn [fst]. fold b. rewrite Hraw.
         eexists. split; [reflexivity|]. rewrite Ew in Hwp. rewrite Ep in Hpay.
         split; [exact Hp|]. split; [exact Hwp|]. split; [exact Hpay|]. split; reflexivity.
       + eexists. split; [reflexivity|]. intros i Hi. rewrite <- Ew. apply Hres. exact Hi.
@@ -177,6 +181,6 @@ Example middleA_example :
   let m := {| m_base := 1; m_wb := 4; m_qb := 6; m_nb := 4; m_max_vocab := 12 |} in
   let recs := [(2, 40, 0); (5, 7, 300); (9, 63, 300)] in
   let st := midA_finish m (midA_inserts m (0, []) 0 recs) 3 1000 in
-  (midA_find m 6 4 st 5 0 3, midA_find m 6 4 st 9 0 3, midA_find m 6 4 st 7 0 3, midA_find m 6 4 st 2 0 3) =
+  (midA_find m 6 st 5 0 3, midA_find m 6 st 9 0 3, midA_find m 6 st 7 0 3, midA_find m 6 st 2 0 3) =
   (Some (Some (1, 7, 300, 300)), Some (Some (2, 63, 300, 1000)), Some None, Some (Some (0, 40, 0, 300))).
 Proof. vm_compute. reflexivity. Qed.
